@@ -9,6 +9,20 @@ LEVEL = "other"
 FORMATS = ("ntriples", "turtle", "rdfxml")
 LIT = {"Simple": "new_simple_literal", "LanguageTaggedString": "new_language_tagged_literal", "Typed": "new_typed_literal"}
 XSD_STRING = "http://www.w3.org/2001/XMLSchema#string"
+SER = "samyama::rdf::serialization::"
+
+
+def _with_helpers(F, path, depth=2):
+    """the function and the serialization-module helpers it calls (a match moved into `convert_literal` is still the reader's table)"""
+    out, work = [path], [path]
+    for _ in range(depth):
+        nxt = []
+        for p in work:
+            for c in F.fns.get(p, {}).get("calls", []):
+                if c.startswith(SER) and c in F.fns and c not in out:
+                    out.append(c); nxt.append(c)
+        work = nxt
+    return out
 
 
 def run(ctx, F, cg):
@@ -23,6 +37,15 @@ def run(ctx, F, cg):
         ser = [r for p, r in F.fns.items() if p.startswith(mod) and p.endswith("::serialize")]
         co = [r for p, r in F.fns.items() if p == mod + "convert_object"]
         cs = [r for p, r in F.fns.items() if p == mod + "convert_subject"]
+        # one shared copy of the conversion functions (in a sibling format's module) is the same table for all
+        called = set()
+        for p, r in F.fns.items():
+            if p.startswith(mod):
+                called |= set(r["calls"])
+        if not co:
+            co = [F.fns[c] for c in sorted(called) if c.startswith(SER) and c.endswith("::convert_object") and c in F.fns][:1]
+        if not cs:
+            cs = [F.fns[c] for c in sorted(called) if c.startswith(SER) and c.endswith("::convert_subject") and c in F.fns][:1]
         if not ser or not co or not cs:
             ctx.anchor_failure("R36", "%s: serialize/convert_object/convert_subject (found %d/%d/%d)" % (fmt, len(ser), len(co), len(cs)))
             continue
@@ -43,7 +66,7 @@ def run(ctx, F, cg):
             ctx.ok("R36a", "%s|serialize" % fmt, "all term and literal kinds built; xsd:string is the plain-literal datatype")
         # reader
         rd = {}
-        for m in F.arms(co[0]["path"]):
+        for m in [m_ for hp_ in _with_helpers(F, co[0]["path"]) for m_ in F.arms(hp_)]:
             for arm in m["arms"]:
                 for p in pats(arm["pat"]):
                     v = vname(p)
@@ -57,18 +80,21 @@ def run(ctx, F, cg):
         else:
             ctx.ok("R36b", "%s|convert_object" % fmt, "Simple/LanguageTaggedString/Typed -> matching constructors")
         sd = {}
-        for m in F.arms(cs[0]["path"]):
+        for m in [m_ for hp_ in _with_helpers(F, cs[0]["path"]) for m_ in F.arms(hp_)]:
             for arm in m["arms"]:
                 for p in pats(arm["pat"]):
                     v = vname(p)
-                    if v in ("NamedNode", "BlankNode"):
+                    if v in ("NamedNode", "BlankNode") and "Subject" in p["p"]:
                         sd[v] = sorted({c.rsplit("::", 1)[-1] for c in arm["ctors"] if "RdfSubject::" in c})
         if sd.get("NamedNode") != ["NamedNode"] or sd.get("BlankNode") != ["BlankNode"]:
             ctx.violation("R36b", "%s|convert_subject" % fmt, where(cs[0]), "subject kinds are not mapped to the same kind: %s" % sd)
         else:
             ctx.ok("R36b", "%s|convert_subject" % fmt, "NamedNode/BlankNode preserved")
         # ---- R36d: lexical values pass through the reader unchanged ----
-        cob = Body(F.mir(co[0]["path"]), co[0])
+        from .. import inline as inl_
+        _ser = lambda p_: p_.startswith(SER) and "{closure" not in p_
+        _ser._key = "rdf-ser"
+        cob = Body(inl_.inlined_mir(F, co[0]["path"], _ser, 2) or F.mir(co[0]["path"]), co[0])
         nlit = 0
         for c in cob.calls():
             nm = c.path.rsplit("::", 1)[-1]
